@@ -22,6 +22,7 @@ import Driver.TkCmd
 import Driver.TensorCmd
 import Driver.CQCmd
 import Driver.DzCmd
+import Driver.SpecialCmd
 
 def handlers : List (String → List String → Option String) :=
   [ DV.CoreCmd.handle
@@ -40,6 +41,7 @@ def handlers : List (String → List String → Option String) :=
   , DV.TensorCmd.handle
   , DV.CQCmd.handle
   , DV.DzCmd.handle
+  , DV.SpecialCmd.handle
   ]
 
 def handle (line : String) : String :=
